@@ -348,6 +348,15 @@ class PVLEncoder(object):
         else:
             raise ValueError("The value {value} is not dict-like.")
 
+        if key.endswith("-") and not self.end_delimiter:
+            # Nothing follows the Block Name on its line, and a dash at
+            # the end of a line is a line continuation for ISIS and for
+            # the default loader.
+            raise ValueError(
+                f'The Block Name "{key}" ends in a dash, which cannot be '
+                "written safely without a Statement Delimiter after it."
+            )
+
         agg_begin = "{} = {}".format(agg_keywords[0], key)
         if self.end_delimiter:
             agg_begin += self.grammar.delimiters[0]
